@@ -194,6 +194,7 @@ fn serve(mut sock: TcpStream, k: usize, srv: Arc<Srv>) {
             "e5" => { reply(sock, &srv, k, "550 5.1.1 fault\r\n"); Some(false) }
             "close" | "commit_close" => Some(true),
             "stall" => { std::thread::sleep(Duration::from_millis(f.ms)); None }
+            "stall_close" => { std::thread::sleep(Duration::from_millis(f.ms)); Some(true) }
             _ => None,
         }
     };
@@ -338,6 +339,13 @@ fn wanted_conns(op: &Value) -> Vec<u64> {
     }
 }
 
+fn open_conns() -> usize {
+    let l = LOG.lock().unwrap();
+    let a = l.iter().filter(|e| e[1] == "S" && e[3] == "ACCEPT").count();
+    let c = l.iter().filter(|e| e[1] == "S" && e[3] == "CLOSE").count();
+    a.saturating_sub(c)
+}
+
 fn op_log(who: &str, idx: usize, phase: &str, op: &Value, res: Value) {
     log(vec![json!("O"), json!(who), json!(idx), json!(phase), op.clone(), res]);
 }
@@ -377,6 +385,11 @@ fn sync_op(tr: &Mutex<Option<SmtpTransport>>, who: &str, idx: usize, op: &Value)
             let want: Vec<u64> = wanted_conns(op);
             let ok = wait_until(op["ms"].as_u64().unwrap_or(3000), || { let c = closed_conns(); want.iter().all(|k| c.contains(k)) });
             json!({"reached": ok})
+        }
+        ("wait_open_le", _) => {
+            let n = op["n"].as_u64().unwrap_or(0) as usize;
+            let ok = wait_until(op["ms"].as_u64().unwrap_or(3000), || open_conns() <= n);
+            json!({"reached": ok, "open": open_conns()})
         }
         ("sleep", _) => { std::thread::sleep(Duration::from_millis(op["ms"].as_u64().unwrap_or(5))); json!("unit") }
         ("drop", _) => { *tr.lock().unwrap() = None; json!("unit") }
@@ -424,6 +437,17 @@ async fn tokio_op(tr: &Mutex<Option<AsyncSmtpTransport<Tokio1Executor>>>, who: &
                 tokio::time::sleep(Duration::from_millis(2)).await;
             }
             json!({"reached": ok})
+        }
+        ("wait_open_le", _) => {
+            let n = op["n"].as_u64().unwrap_or(0) as usize;
+            let deadline = Instant::now() + Duration::from_millis(op["ms"].as_u64().unwrap_or(3000));
+            let mut ok = false;
+            loop {
+                if open_conns() <= n { ok = true; break; }
+                if Instant::now() > deadline { break; }
+                tokio::time::sleep(Duration::from_millis(2)).await;
+            }
+            json!({"reached": ok, "open": open_conns()})
         }
         ("sleep", _) => { tokio::time::sleep(Duration::from_millis(op["ms"].as_u64().unwrap_or(5))).await; json!("unit") }
         ("drop", _) => { *tr.lock().unwrap() = None; json!("unit") }
